@@ -455,6 +455,10 @@ func (f Field) GetType() string {
 	case *FixedStringFieldAttribute, *DynamicStringFieldAttribute:
 		return "string"
 	case *ObjectFieldAttribute:
+		if c.RefPacket == nil {
+			// not resolved (yet): a forward or unknown reference is known by its name only
+			return c.PacketName
+		}
 		return c.RefPacket.Name
 	case *MatchFieldAttribute:
 		return "match"
